@@ -34,3 +34,196 @@ func HarnessC11_ASC() {
 		vReach("asc-rejected")
 	}
 }
+
+// ISO/IEC 13818-7 Table 35.
+var refAacHz = [13]int{96000, 88200, 64000, 48000, 44100, 32000, 24000, 22050, 16000, 12000, 11025, 8000, 7350}
+
+// HarnessC11_ToHz: every sampling-frequency index converts to the ISO frequency; the
+// conversion is total over the whole uint8 range (C07 clause for this enum).
+func HarnessC11_ToHz() {
+	v := SampleRateIndex(vU8())
+	var hz int
+	panicked := vExpectPanic(func() { hz = v.ToHz() })
+	vAssert(!panicked, "SampleRateIndex.ToHz never panics")
+	if !panicked && v <= 12 {
+		vAssert(hz == refAacHz[v], "SampleRateIndex.ToHz equals the ISO table")
+		vReach("tohz-defined")
+	}
+	vReach("tohz")
+}
+
+// validCfg draws an arbitrary configuration that the library's validate() accepts.
+func validCfg() (obj ObjectType, sr SampleRateIndex, ch Channels) {
+	obj, sr, ch = ObjectType(vU8()), SampleRateIndex(vU8()), Channels(vU8())
+	vAssume(refASCValid(uint8(obj), uint8(sr), uint8(ch)))
+	return
+}
+
+func refProfile(obj ObjectType) uint8 {
+	// ADTS profile = audio object type - 1 for Main/LC/SSR; HE and HEv2 are carried as LC.
+	return vIteU8(obj == 1, 0, vIteU8(obj == 3, 2, 1))
+}
+
+func rawLenChoices() []int {
+	if vTier() == 0 {
+		return []int{1, 2, 3, 24, 25, 248, 249, 2040, 2041, 8183, 8184}
+	}
+	return []int{1, 2, 3, 4, 5, 7, 8, 9, 15, 16, 17, 24, 25, 31, 32, 33, 63, 64, 65, 127, 128, 129, 248, 249, 255, 256, 257,
+		511, 512, 513, 1016, 1017, 1023, 1024, 1025, 2040, 2041, 2047, 2048, 2049, 4088, 4089, 4095, 4096, 4097, 8176, 8177, 8183, 8184}
+}
+
+// symRaw builds a raw AAC frame of n bytes: every byte symbolic up to 16 bytes, beyond that
+// symbolic bytes at the first, middle and last positions and concrete filler elsewhere.
+func symRaw(n int) []byte {
+	if n <= 16 {
+		return vBytes(n)
+	}
+	raw := make([]byte, n)
+	for i := range raw {
+		raw[i] = byte(i*7 + 3)
+	}
+	raw[0], raw[1], raw[n/2], raw[n-2], raw[n-1] = vU8(), vU8(), vU8(), vU8(), vU8()
+	return raw
+}
+
+// HarnessC11_EncDec: Encode then Decode returns the raw frame, nothing left, and the
+// configuration's ADTS profile / index / channels; the bytes are the ISO header.
+func HarnessC11_EncDec() {
+	obj, sr, ch := validCfg()
+	lens := rawLenChoices()
+	n := lens[vChoice(len(lens))]
+	raw := symRaw(n)
+	enc := &ADTSImpl{asc: AudioSpecificConfig{Object: obj, SampleRate: sr, Channels: ch}}
+	data, err := enc.Encode(raw)
+	vAssert(err == nil, "Encode accepts every valid configuration")
+	if err != nil {
+		return
+	}
+	vAssert(len(data) == n+7, "ADTS frame is 7 header bytes + raw")
+	// ISO 13818-7 6.2 header as the library documents it (MPEG-2 id, no CRC, fullness 0x7ff)
+	fl := uint16(n + 7)
+	prof := refProfile(obj)
+	hdrOK := vAnd(data[0] == 0xff, vAnd(data[1]&0xf6 == 0xf0, data[1]&1 == 1))
+	hdrOK = vAnd(hdrOK, data[2] == prof<<6|uint8(sr)<<2|uint8(ch)>>2)
+	hdrOK = vAnd(hdrOK, data[3]&0xc3 == uint8(ch)<<6|uint8(fl>>11))
+	hdrOK = vAnd(hdrOK, vAnd(data[4] == uint8(fl>>3), data[5]&0xe0 == uint8(fl<<5)))
+	hdrOK = vAnd(hdrOK, data[6]&3 == 0)
+	vAssert(hdrOK, "encoded header fields follow ISO 13818-7 6.2")
+
+	dec := &ADTSImpl{}
+	got, left, err := dec.Decode(data)
+	vAssert(err == nil, "Decode accepts the encoder's output")
+	if err != nil {
+		return
+	}
+	vAssert(len(left) == 0, "nothing left over")
+	vAssert(vEqBytes(got, raw), "raw bytes identical")
+	asc := dec.ASC()
+	vAssert(vAnd(uint8(asc.Object.ToProfile()) == prof, vAnd(asc.SampleRate == sr, asc.Channels == ch)), "ASC() reports profile, index, channels")
+	vReach("encdec")
+}
+
+// HarnessC11_Concat: a concatenation of frames decodes one frame at a time and the
+// remainder always starts at the next sync word.
+func HarnessC11_Concat() {
+	k := 2
+	if vTier() == 1 {
+		k = 2 + vChoice(2)
+	}
+	var stream []byte
+	var raws [][]byte
+	var cfgs [][3]uint8
+	for i := 0; i < k; i++ {
+		obj, sr, ch := validCfg()
+		n := 1 + vChoice(3)
+		raw := vBytes(n)
+		enc := &ADTSImpl{asc: AudioSpecificConfig{Object: obj, SampleRate: sr, Channels: ch}}
+		data, err := enc.Encode(raw)
+		vAssert(err == nil, "Encode accepts every valid configuration")
+		if err != nil {
+			return
+		}
+		stream = append(stream, data...)
+		raws = append(raws, raw)
+		cfgs = append(cfgs, [3]uint8{refProfile(obj), uint8(sr), uint8(ch)})
+	}
+	dec := &ADTSImpl{}
+	rest := stream
+	for i := 0; i < k; i++ {
+		got, left, err := dec.Decode(rest)
+		vAssert(err == nil, "each frame of a concatenation decodes")
+		if err != nil {
+			return
+		}
+		vAssert(vEqBytes(got, raws[i]), "frame of a concatenation: raw identical")
+		vAssert(len(left) == len(rest)-7-len(raws[i]), "remainder starts right after the frame")
+		if len(left) >= 2 {
+			vAssert(vAnd(left[0] == 0xff, left[1]&0xf0 == 0xf0), "remainder starts at the next sync word")
+		}
+		asc := dec.ASC()
+		vAssert(vAnd(uint8(asc.Object.ToProfile()) == cfgs[i][0], vAnd(uint8(asc.SampleRate) == cfgs[i][1], uint8(asc.Channels) == cfgs[i][2])), "ASC() follows each frame")
+		rest = left
+	}
+	vAssert(len(rest) == 0, "concatenation fully consumed")
+	vReach("concat")
+}
+
+// refADTSWrite is an independent ISO/IEC 13818-7 6.2 ADTS writer: every header bit is a
+// parameter. crc is present iff protectionAbsent == 0.
+func refADTSWrite(id, protectionAbsent, profile, sfi, private, chcfg, original, home, cpBit, cpStart uint8, fullness uint16, nblocks uint8, crc [2]byte, raw []byte) []byte {
+	hl := 7
+	if protectionAbsent == 0 {
+		hl = 9
+	}
+	fl := uint16(hl + len(raw))
+	out := make([]byte, 0, int(fl))
+	out = append(out, 0xff)
+	out = append(out, 0xf0|id<<3|0<<1|protectionAbsent)
+	out = append(out, profile<<6|sfi<<2|private<<1|chcfg>>2)
+	out = append(out, (chcfg&3)<<6|original<<5|home<<4|cpBit<<3|cpStart<<2|uint8(fl>>11)&3)
+	out = append(out, uint8(fl>>3))
+	out = append(out, uint8(fl&7)<<5|uint8(fullness>>6)&0x1f)
+	out = append(out, uint8(fullness&0x3f)<<2|nblocks&3)
+	if protectionAbsent == 0 {
+		out = append(out, crc[0], crc[1])
+	}
+	return append(out, raw...)
+}
+
+// HarnessC11_RefDecode: frames produced by the independent ISO writer (MPEG-2 or MPEG-4 id,
+// with or without CRC, arbitrary private/copyright/home/fullness bits) decode to exactly
+// their raw data block, with the remainder right after it.
+func HarnessC11_RefDecode() {
+	obj, sr, ch := validCfg()
+	vAssume(vOr(obj == 1, vOr(obj == 2, obj == 3))) // ADTS profile field carries Main/LC/SSR
+	id, pa := vU8()&1, vU8()&1
+	priv, orig, home, cb, cs := vU8()&1, vU8()&1, vU8()&1, vU8()&1, vU8()&1
+	full := vU16() & 0x7ff
+	crc := [2]byte{vU8(), vU8()}
+	n := 1 + vChoice(4)
+	raw := vBytes(n)
+	trail := vBytes(vChoice(3))
+	frame := refADTSWrite(id, pa, uint8(obj)-1, uint8(sr), priv, uint8(ch), orig, home, cb, cs, full, 0, crc, raw)
+	data := append(append([]byte(nil), frame...), trail...)
+	dec := &ADTSImpl{}
+	got, left, err := dec.Decode(data)
+	vAssert(err == nil, "ISO-conformant frame is accepted")
+	if err != nil {
+		return
+	}
+	vAssert(len(got) == n, "raw block has frame_length minus header (minus CRC) bytes")
+	if len(got) == n {
+		vAssert(vEqBytes(got, raw), "raw block identical")
+	}
+	vAssert(len(left) == len(trail), "remainder starts right after the frame")
+	if len(left) == len(trail) {
+		vAssert(vEqBytes(left, trail), "remainder bytes untouched")
+	}
+	asc := dec.ASC()
+	vAssert(vAnd(asc.Object == obj, vAnd(asc.SampleRate == sr, asc.Channels == ch)), "ASC() reports the header's configuration")
+	if pa == 0 {
+		vReach("refdecode-crc")
+	} else {
+		vReach("refdecode-nocrc")
+	}
+}
